@@ -74,7 +74,7 @@ func runC07(b *mon.B) {
 			walk := k%40 == 7 // one session walked up to 255 by jumping
 			rogue := ""
 			if r.Chance(1, 4) {
-				rogue = r.PickS("even", "replay", "bad-major", "bad-minor", "bad-type", "seq0", "oversize", "decrease")
+				rogue = r.PickS("even", "replay", "bad-major", "bad-minor", "bad-type", "seq0", "oversize", "decrease", "after-255", "after-255")
 			}
 			order := interleave(r, recs)
 			if !b.Want(caseNo) {
@@ -156,6 +156,20 @@ func runC07(b *mon.B) {
 						h.Seq = r.Pick(1, 3)
 					}
 					body = bAuthenContinue(0, "pw", "")
+				case "after-255":
+					// walk a session to the top of the number space with a continuation pending, then try again
+					h.Seq = 253
+					play("authen/ascii/start", "rogue", h, bAuthenStart(1, 1, 1, 1, "", "p", "r", ""), true)
+					if dead {
+						break
+					}
+					h.Seq = 255
+					play("authen/ascii/continue-user", "rogue", h, bAuthenContinue(0, "alice", ""), true)
+					if dead {
+						break
+					}
+					h.Seq = r.Pick(1, 3, 253, 255)
+					body = bAuthenContinue(0, sc.Users["alice"].Password, "")
 				case "bad-major":
 					h.Major = r.Pick(0, 0xb, 0xd, 0xf)
 				case "bad-minor":
